@@ -95,6 +95,10 @@ type Request struct {
 	Harness string  `json:"harness"`
 	Prefix  []int64 `json:"prefix"`
 	Witness bool    `json:"witness"`
+	// MergeLimit > 0: only the first MergeLimit-1 merge regions entered from forking mode are
+	// if-converted, later ones are executed forking (retry after a merged region met something
+	// it cannot handle without forking). 0 = no limit.
+	MergeLimit int `json:"merge_limit,omitempty"`
 }
 
 func main() {
@@ -185,7 +189,7 @@ func runPath(ld *loaded, s *Solver, c *Config, req Request) (res *PathResult) {
 	}
 	e := &Engine{prog: ld.prog, pkg: ld.pkg, s: s, globals: map[*ssa.Global]*Loc{}, trace: req.Prefix,
 		res: res, harness: req.Harness, funcs: map[string]bool{}, exts: map[string]bool{}, conc: map[string]int64{},
-		maxSteps: c.MaxSteps, maxEnum: c.MaxEnum, unwind: c.Unwind, noMerge: c.NoMerge, clock: bv(0, 64), wantWitness: req.Witness, dumpDir: c.DumpDir, dumpMax: 3}
+		maxSteps: c.MaxSteps, maxEnum: c.MaxEnum, unwind: c.Unwind, noMerge: c.NoMerge, mergeLimit: req.MergeLimit, clock: bv(0, 64), wantWitness: req.Witness, dumpDir: c.DumpDir, dumpMax: 3}
 	curSolver = s
 	q0, d0 := s.queries, s.dur
 	u0, s0 := s.nUnsat, s.nSat
@@ -212,6 +216,13 @@ func runPath(ld *loaded, s *Solver, c *Config, req Request) (res *PathResult) {
 					}
 				case engineError:
 					res.Status, res.Detail = "error", p.msg
+					if e.curIns != nil && e.curIns.Parent() != nil {
+						res.Detail += fmt.Sprintf(" [in %s, %s; region spec=%v]", e.curIns.Parent().Name(), ld.prog.Fset.Position(e.curIns.Pos()), e.regionSpec)
+					}
+					if e.regionOpen && !e.regionSpec && strings.Contains(p.msg, "guarded (pure) code") {
+						// a merged library region needed to fork: run this path again with that region (and later ones) forking
+						res.Status, res.RetryMergeLimit = "retry", e.mergeCount
+					}
 				default:
 					at := ""
 					if e.curIns != nil {
@@ -273,6 +284,7 @@ type Summary struct {
 	WallS        float64             `json:"wall_s"`
 	Steps        int64               `json:"steps"`
 	Merged       int                 `json:"merged_regions"`
+	Retries      int                 `json:"paths_retried_unmerged"`
 	Violations   []Violation         `json:"violations"`
 	Reached      map[string]int      `json:"reached"`
 	Funcs        []string            `json:"funcs"`
